@@ -247,6 +247,15 @@ class Check:
     # -- Lean --------------------------------------------------------------------------------
     def lean(self, extra_targets: list[str] | None = None) -> bool:
         """Build Props.<id> + driver, static + axiom audit.  Returns True when all is well."""
+        tr = subprocess.run(
+            ["/venv/bin/python", str(VERIF / "tools" / "extract_tables.py")],
+            capture_output=True, text=True, env={**os.environ, "VERIF_REPO": str(REPO)},
+        )
+        self.extra["translator"] = (tr.stdout + tr.stderr).strip()[-300:]
+        if tr.returncode != 0:
+            self.obligations = len(theorem_names(self.id))
+            self.build_failed = ["translator: " + (tr.stdout + tr.stderr).strip()[-300:]]
+            return False
         b = LeanBuild()
         targets = [f"Ramses.Props.{self.id}", "ramses-model"] + (extra_targets or [])
         ok = b.build(targets)
@@ -344,6 +353,13 @@ class Check:
             lines.append(f"VIOLATION property={self.id} replay={path} no-failing-input-found")
             exit_code = 1
 
+        classes: dict[str, int] = {}
+        for v in reported:
+            k = v.key.split(":", 1)[0]
+            classes[k] = classes.get(k, 0) + 1
+        if classes:
+            self.extra["violation_classes"] = classes
+            lines.append(f"# violation classes: {classes}")
         self.write_evidence(len(reported))
         for ln in lines:
             print(ln)
